@@ -72,8 +72,8 @@ def correspond(run):
                "generated model and compiled code differ on %d inputs, e.g. %s" % (len(bad), bad[:2]))
 
 
-def _search(run, n):
-    rc, js, out, err = vlib.harness(["invhash-search", "--seed", run.seed, "--n", n], timeout=900)
+def _search(run, n, debug=False):
+    rc, js, out, err = vlib.harness(["invhash-search", "--seed", run.seed, "--n", n], timeout=900, debug=debug)
     if rc != 0 or js is None:
         run.oblige("direct:invhash-search", "correspondence", False, (out + err)[-800:])
         return None
@@ -88,7 +88,8 @@ def direct(run):
     run.coverage["impl_values_checked"] = js["tried"]
     for f in js["found"]:
         run.violation("roundtrip-%d" % f["width"],
-                      "%s fails for the %d-bit pair at x=%d (got %d)" % (f["identity"], f["width"], f["x"], f["got"]),
+                      "%s fails for the %d-bit pair at x=%d (%s)%s" % (f["identity"], f["width"], f["x"], "panics" if f.get("panic") else "got %d" % f["got"],
+                                                                       " in a " + f["build"] + " build" if f.get("build") else ""),
                       {"kind": "impl-input", "function": "int%d_hash / int%d_hash_inverse" % (f["width"], f["width"]),
                        "identity": f["identity"], "input": f["x"], "expected": f["x"], "observed": f["got"]})
 
@@ -97,11 +98,17 @@ def search(run):
     if run.violations:
         return
     js = _search(run, 20000000)
-    if js is None:
-        return
-    for f in js["found"]:
+    found = list(js["found"]) if js else []
+    if not found:
+        # overflow checks: the same sweep on a debug build (a checked addition that wraps in release panics there)
+        okd, _ = vlib.harness_build(debug=True)
+        if okd:
+            jd = _search(run, 200000, debug=True)
+            found = [dict(f, build="debug (overflow checks on)") for f in (jd["found"] if jd else [])]
+    for f in found:
         run.violation("roundtrip-%d" % f["width"],
-                      "%s fails for the %d-bit pair at x=%d (got %d)" % (f["identity"], f["width"], f["x"], f["got"]),
+                      "%s fails for the %d-bit pair at x=%d (%s)%s" % (f["identity"], f["width"], f["x"], "panics" if f.get("panic") else "got %d" % f["got"],
+                                                                       " in a " + f["build"] + " build" if f.get("build") else ""),
                       {"kind": "impl-input", "function": "int%d_hash / int%d_hash_inverse" % (f["width"], f["width"]),
                        "identity": f["identity"], "input": f["x"], "expected": f["x"], "observed": f["got"]})
 
